@@ -114,6 +114,21 @@ class Sys04(c05.Sys05):
             st.add_ili([dict(ili=a, status=b, definition=c) for a, b, c in universe.ILI_ROWS])
         return st
 
+    def warm(self, m, ev):
+        """before a removal that will be followed by chained adds: navigate everything once in default mode, so
+        that whatever the library remembers about lexicons, families and rowids is in place when the rowids change"""
+        if ev[0] != 'remove' or self.annot or not m['inst']:
+            return
+        with warnings.catch_warnings():
+            warnings.simplefilter('ignore')
+            w = wn.Wordnet()
+            for s_ in w.senses():
+                s_.word(), s_.synset(), s_.relations()
+            for x_ in w.words():
+                x_.senses(), x_.synsets()
+            for x_ in w.synsets():
+                x_.senses(), x_.relations(), x_.lexicon()
+
     def chain_events(self, m, ev, m2):
         """after a removal that changed something: add, in the same process, one lexicon that is not installed -
         it re-uses the freed rowid - and check the state reached (membership, scoped transcripts)"""
@@ -122,7 +137,10 @@ class Sys04(c05.Sys05):
         if self.uni_id == 'twin':
             return [['add', a] for a in ('T2', 'Z1', 'A2') if universe.SPEC_TWIN[a] not in m2['inst']
                     and (a == 'A2' or 'a:1' in m2['inst'])][:1]
-        return [['add', a] for a in ('B1', 'A2', 'C1') if c05.universe.SPEC[a] not in m2['inst']][:1]
+        else:
+            evs = [['add', a] for a in ('B1', 'A2', 'C1') if c05.universe.SPEC[a] not in m2['inst']][:1]
+        # ... through both public entry points (a file given to wn.add, a resource given to wn.add_lexical_resource)
+        return evs + [e + ['memory'] for e in evs]
 
     def check_state(self, m, pre, hist):
         V, data = [], {}
@@ -149,7 +167,7 @@ class Sys04(c05.Sys05):
                 V.append((f'select:lexicons:{name}', f'after {hist}: Wordnet({kw}).lexicons() = {got_S} expected {S}'))
                 continue
             smap = smap or observe.spec_map()
-            T = observe.api_transcript(w, self.reltypes, smap, forms=self.U['forms'])
+            T = observe.api_transcript(w, self.reltypes, smap, forms=self.U['forms'], targets=True)
             exp_ids = sorted(T['expanded'])
             # (1a) membership
             if default_mode:
@@ -167,6 +185,9 @@ class Sys04(c05.Sys05):
                 if bad:
                     V.append((f'membership:restricted:{name}',
                               f'after {hist}: Wordnet({kw}) returns entities of {sorted(bad)}, selection is {S}'))
+            # (the target lists only serve the membership rules: the reference transcript has no such field)
+            for rec in T['synsets'].values():
+                rec.pop('targets', None)
             # (1b) equality with the scoped reference transcript (where no ILI expansion is active)
             if not exp_ids:
                 exp, unordered = idx.transcript(S, default_mode=default_mode, reltypes=self.reltypes,
@@ -271,7 +292,7 @@ def replay(path):
     found = False
     for annot in (False, True, 'twin'):
         s = _sys(annot)
-        if any(ev not in s.events(None) for ev in hist):
+        if any(ev[:2] not in s.events(None) for ev in hist):
             continue
         env.fresh_db()
         w = env.new_dir('rp')
